@@ -42,7 +42,20 @@ class DocGen:
             if rng.random() < 0.5:
                 d["maxItems"] = rng.randint(1, 3)
         elif r < 0.85:
-            d = {"type": "object", "properties": {self.name().lower(): self.gen(depth + 1) for _ in range(rng.randint(1, 4))}}
+            props = [(self.name().lower(), self.gen(depth + 1)) for _ in range(rng.randint(1, 4))]
+            # property names and $anchor names come from one pool in real documents: a property keyed by its own anchor (as the
+            # COBOL generator writes them), or keyed by the anchor of a SIBLING
+            anchored = [i for i, (_, v) in enumerate(props) if "$anchor" in v]
+            if anchored and rng.random() < 0.35:
+                i = rng.choice(anchored)
+                if rng.random() < 0.5:
+                    props[i] = (props[i][1]["$anchor"], props[i][1])
+                    self.features.add("key-equals-own-anchor")
+                elif len(props) > 1:
+                    j = rng.choice([k for k in range(len(props)) if k != i])
+                    props[j] = (props[i][1]["$anchor"], props[j][1])
+                    self.features.add("key-equals-sibling-anchor")
+            d = {"type": "object", "properties": dict(props)}
         else:
             d = {"oneOf": [self.gen(depth + 1) for _ in range(rng.randint(1, 3))]}
             self.features.add("oneOf")
